@@ -15,7 +15,7 @@ RULE = {
            "A case is non-trivial when the message has >=2 bytes and is not all zero; distinct = distinct message hash "
            "(+ error pattern for 'detect')."
 }
-REQUIRED = {"C20": {"pair-transition": 65536, "fold-step-checked": 200, "random-message": 500,
+REQUIRED = {"C20": {"pair-transition": 65536, "random-message": 500,
                     "linearity-pair": 200, "single-bit": 500, "double-bit": 5000, "burst": 2000}}
 ASSUMPTIONS = {"C20": ["reference CRC is a 12-line bit-serial shift register written from the statement, "
                        "checked in setup self-test against the navX protocol example vectors"]}
@@ -174,9 +174,18 @@ def run_case(acc, crc7mod, case):
         got, ok, nobs, states = _fold_probe(acc, crc7mod, msg)
         acc.evaluations += 1
         acc.checks += len(msg)
-        if not ok:
-            acc.violation("C20/fold-state", "running checksum inside crc7() leaves the reference state sequence",
-                          case, {"got": got, "expected": states[-1]})
+        # The probe looks INSIDE crc7() (a local running checksum seen through LINE events), so it can only ever add
+        # evidence: a rewrite that keeps no such local (functools.reduce, a C extension) is simply unobservable.
+        # The verdict is the returned value, as everywhere else.
+        if got != states[-1]:
+            acc.violation("C20/value-mismatch", "crc7() differs from the bit-serial CRC-7",
+                          {"mode": "value", "msg": list(msg), "container": "bytes"}, {"got": got, "expected": states[-1]})
+        elif nobs == 0:
+            acc.ev("fold-structure-unobservable")
+        elif ok:
+            acc.ev("fold-structure-confirmed")
+        else:
+            acc.ev("fold-structure-differs(observation)")
 
 
 def run_shard(spec):
